@@ -1,26 +1,113 @@
-"""CrossHair harness for C06: deepcopy a tree, edit either side through the AST API (symbolic operation kind,
-side, target class and payload literal), flatten every class of both trees; oracle = two independently
-unpickled trees that received the same edits."""
+"""Harness for C06: deepcopy a tree (or a copy of it), edit any of the trees through the AST API (operation kind,
+side, target class and payload literal chosen by the solver), observe every class of every tree after every
+edit - by tree.flatten, or through the SymPy/XML backends, which deep-copy the tree themselves.
+
+Oracle: a tree that was unpickled independently and received exactly the edits of that side, so it is
+independent by construction.  What an oracle tree shows is a pure function of the edits applied to it (and, for
+edits that transplant a class/symbol taken from another tree, of the edits applied to that source tree before),
+so the oracle observation is computed from scratch - fresh tree, replay of the edits, observe - once per
+distinct edit list and memoised (`oracle`).  An oracle tree is never copied, never shared and never observed
+before its last edit."""
 import copy
 
 from pymoca import ast
 from props.hflat import LIBS, inst, flat, same, tpl
 from vk.chstubs import pin, PIN
 
+# Libraries of this check only (hflat.py is shared with C05/C27).  "imp": every spelling of an import - an
+# unqualified import in the ENCLOSING package, a renaming and a single-class import in the model itself - so that
+# the lookup caches pymoca keeps inside the tree are on the path from the flattened class to the edited class;
+# Q.Y has an initial equation (remove_initial_equation needs one).
+LIBS.setdefault("imp", ("""
+package Q
+  model X
+    Real v = 7001;
+  end X;
+  model Y
+    Real u(start = 7002);
+  initial equation
+    u = 7002;
+  equation
+    der(u) = -u;
+  end Y;
+end Q;
+package P
+  import Q.*;
+  model M
+    import QQ = Q;
+    import Q.Y;
+    X x;
+    QQ.X x2;
+    Y y;
+    Real m;
+  equation
+    m = x.v + x2.v + y.u + 7003;
+  end M;
+end P;
+""", ["Q.X", "Q.Y", "P.M"]))
+
 LIB = PIN.get("lib", "comp")
 NAMES = LIBS[LIB][1]
 N = len(NAMES)
 tpl(LIB)
 
-KINDS = ["add_symbol", "remove_symbol", "add_equation", "remove_equation", "add_class", "remove_class"]
+# 0-5: the original edit kinds (payload: a fresh node).  6-7: initial equations.  8-11: the payload is TAKEN FROM
+# A TREE, as a user who assembles a library from another one does: find_class() returns a private copy of the
+# class, copy.deepcopy(class) / copy.deepcopy(symbol) are the documented way to duplicate a node; such copies
+# keep a reference to the parent they were copied under (Class.__deepcopy__ pins it).
+KINDS = ["add_symbol", "remove_symbol", "add_equation", "remove_equation", "add_class", "remove_class",
+         "add_initial_equation", "remove_initial_equation",
+         "add_class(find_class in the next tree, same place)", "add_class(find_class in the same tree, into a new package)",
+         "add_class(deepcopy of the next tree's class, into a new package)", "add_symbol(deepcopy of the next tree's symbol)"]
+NBASE = 6          # kinds of the original family
+NPLAIN = 8         # kinds whose payload is a fresh node (no source tree needed)
+SAME_TREE_SOURCE = (9,)
+
+
+def _ref(name):
+    return ast.ComponentRef.from_string(name)
 
 
 def find(t, name):
-    return t.find_class(ast.ComponentRef.from_string(name), copy=False)
+    return t.find_class(_ref(name), copy=False)
 
 
-def edit(t, kind, ci, payload):
-    """Apply one edit through the public AST API.  Must behave identically on equal trees."""
+def _leaf(name):
+    return name.rsplit(".", 1)[-1]
+
+
+def _prefix(name):
+    return name[:len(name) - len(_leaf(name))]
+
+
+def _observed_names(nested):
+    """Every class of the library plus every place where an edit can put a class."""
+    out = list(NAMES) + ["NW"]
+    for n in NAMES:
+        if "." in n:
+            out.append(n.rsplit(".", 1)[0] + ".NW")
+    for n in (NAMES if nested else []):
+        out.append(_prefix(n) + "NP." + _leaf(n))
+    seen = []
+    for n in out:
+        if n not in seen:
+            seen.append(n)
+    return seen
+
+
+OBS = _observed_names(True)
+OBS_PLAIN = _observed_names(False)  # without the places only the transplanting kinds (>= NPLAIN) can fill
+
+
+def _new_package(cls):
+    np = ast.Class(name="NP", type="package")
+    cls.parent.add_class(np)
+    return np
+
+
+def edit(t, kind, ci, payload, src=None):
+    """Apply one edit through the public AST API.  Must behave identically on equal trees.
+    src: the tree a transplanted class/symbol is taken from (kinds >= NPLAIN)."""
     cls = find(t, NAMES[ci])
     if kind == 0:
         s = ast.Symbol(name="nw", type=ast.ComponentRef(name="Real"))
@@ -45,13 +132,166 @@ def edit(t, kind, ci, payload):
         cls.parent.add_class(c)
     elif kind == 5:
         cls.parent.remove_class(cls)
+    elif kind == 6:
+        names = list(cls.symbols.keys())
+        if names:
+            cls.add_initial_equation(ast.Equation(left=ast.ComponentRef(name=names[0]), right=ast.Primary(value=payload)))
+    elif kind == 7:
+        if cls.initial_equations:
+            cls.remove_initial_equation(cls.initial_equations[0])
+    elif kind == 8:
+        # replace the class by the (private copy of the) class of the same name found in another tree
+        cls.parent.add_class(src.find_class(_ref(NAMES[ci])))
+    elif kind == 9:
+        # duplicate a class of the same tree inside a new package next to it (a different parent object; nesting it
+        # into an existing class of the library could make that class contain itself)
+        _new_package(cls).add_class(src.find_class(_ref(NAMES[ci])))
+    elif kind == 10:
+        _new_package(cls).add_class(copy.deepcopy(find(src, NAMES[ci])))
+    elif kind == 11:
+        # a component (with its modifications, if it has any) copied over from another tree
+        syms = list(find(src, NAMES[ci]).symbols.values())
+        pick = [s for s in syms if s.class_modification is not None] or syms
+        s = copy.deepcopy(pick[-1])
+        s.name = "tr"
+        cls.add_symbol(s)
 
 
-def all_same(real, oracle):
-    for name in NAMES + ["NW"]:
-        if not same(flat(real, name), flat(oracle, name)):
+# ---- observation ---------------------------------------------------------------------------------------------
+def _sympy(t, name):
+    from pymoca.backends.sympy import generator
+    try:
+        return ("ok", generator.generate(t, name))
+    except Exception as e:
+        return ("raise", type(e).__name__)
+
+
+def _xml(t, name):
+    from pymoca.backends.xml import generator
+    try:
+        return ("ok", generator.generate(t, name))
+    except Exception as e:
+        return ("raise", type(e).__name__)
+
+
+# mode -> observers; "be": what the backends that deep-copy the tree themselves generate for it
+OBSERVERS = {"flat": (flat,), "be": (_sympy, _xml)}
+
+
+def observe(t, mode):
+    # the backend histories use the plain kinds only (every backend call deep-copies the whole tree first)
+    return [f(t, name) for name in (OBS if mode == "flat" else OBS_PLAIN) for f in OBSERVERS[mode]]
+
+
+def all_same(real, expected):
+    for name in OBS:
+        if not same(flat(real, name), flat(expected, name)):
             return False
     return True
+
+
+# ---- oracle --------------------------------------------------------------------------------------------------
+# An edit list is a tuple of descriptors (kind, class index, payload, edit list of the source tree or None).
+_ORACLE = {}
+
+
+def _oracle_tree(vals, edits):
+    t = inst(LIB, list(vals))
+    flags = []
+    for kind, ci, payload, srcedits in edits:
+        try:
+            src = None if srcedits is None else _oracle_tree(vals, srcedits)[0]
+            edit(t, kind, ci, payload, src)
+            flags.append(True)
+        except Exception:
+            flags.append(False)
+    return t, flags
+
+
+def oracle(vals, edits, mode):
+    """(did each edit succeed, observations) of an independent tree that received `edits`."""
+    key = (tuple(vals), edits, mode)
+    if key not in _ORACLE:
+        t, flags = _oracle_tree(vals, edits)
+        _ORACLE[key] = (flags, observe(t, mode))
+    return _ORACLE[key]
+
+
+# ---- the explored history ------------------------------------------------------------------------------------
+def explore(chain, edits, vals, w=0, mode="flat"):
+    """chain 1: orig -> copy;  chain 2: orig -> copy -> (fixed edit of the copy) -> copy of the copy.
+    edits: [(kind, side, class index, payload)].  w=1: every existing tree is observed (flattened / generated)
+    before each deepcopy and once more before the first edit, so that whatever pymoca caches inside a tree while
+    flattening it is present when the tree is copied and edited.
+    Returns 1 (holds), 0 (an edit raised on one of two equal trees only), 2+i (tree i differs from its oracle)."""
+    # the oracle's edit lists of the whole history, and the oracle itself, are computed before the real trees
+    # are touched (no foreign backend call between two backend calls on a real tree)
+    nt = chain + 1
+    pre = ((0, 0, 99, None),)
+    hists = [(), ()] if chain == 1 else [(), pre, pre]
+    if w:
+        oracle(vals, (), mode)
+        oracle(vals, pre, mode)
+    steps = []
+    for k, s, c, p in edits:
+        srcside = s if k in SAME_TREE_SOURCE else (s + 1) % nt
+        d = (k, c, p, None if k < NPLAIN else hists[srcside])
+        hists = hists[:s] + [hists[s] + (d,)] + hists[s + 1:]
+        steps.append(list(hists))
+    for hs in steps:
+        for h in hs:
+            oracle(vals, h, mode)
+
+    def check(trees, hs):
+        for i, t in enumerate(trees):
+            if not all(same(a, b) for a, b in zip(observe(t, mode), oracle(vals, hs[i], mode)[1])):
+                return 2 + i
+        return 1
+
+    trees = [inst(LIB, list(vals))]
+    cur = [()]
+    for i in range(chain):
+        if i == 1:
+            edit(trees[1], 0, 0, 99)
+            cur[1] = ((0, 0, 99, None),)
+        if w:
+            r = check(trees, cur)
+            if r != 1:
+                return r
+        trees.append(copy.deepcopy(trees[-1]))
+        cur.append(cur[-1])
+    if w:
+        r = check(trees, cur)
+        if r != 1:
+            return r
+    for (k, s, c, p), hs in zip(edits, steps):
+        src = trees[s if k in SAME_TREE_SOURCE else (s + 1) % nt]
+        try:
+            edit(trees[s], k, c, p, src)
+            ok = True
+        except Exception:
+            ok = False
+        if ok != oracle(vals, hs[s], mode)[0][-1]:
+            return 0
+        r = check(trees, hs)
+        if r != 1:
+            return r
+    return 1
+
+
+# function name -> (chain, w, mode); the tuple is (k1, s1, c1, k2, s2, c2), k2 == -1: a single edit
+FUNCS = {"hist": (1, 0, "flat"), "hist_cc": (2, 0, "flat"),
+         "hist_w": (1, 1, "flat"), "hist_cc_w": (2, 1, "flat"),
+         "hist_x": (1, 0, "flat"), "hist_cc_x": (2, 0, "flat"),
+         "hist_be": (1, 1, "be"), "hist_cc_be": (2, 1, "be")}
+
+
+def run(func, tup):
+    chain, w, mode = FUNCS[func]
+    k1, s1, c1, k2, s2, c2 = tup
+    edits = [(k1, s1, c1, 51)] + ([(k2, s2, c2, 52)] if k2 >= 0 else [])
+    vals = (11, 12, 3, 4) if chain == 1 else (11, 2, 3, 4)
+    return explore(chain, edits, vals, w, mode)
 
 
 try:
@@ -79,28 +319,7 @@ def hist(k1: int, s1: int, c1: int, p1: int, k2: int, s2: int, c2: int, p2: int,
 
 
 def _hist(k1, s1, c1, p1, k2, s2, c2, p2, v1, v2):
-    vals = [v1, v2, 3, 4]
-    orig = inst(LIB, vals)
-    o_orig, o_copy = inst(LIB, vals), inst(LIB, vals)  # independent by construction
-    cp = copy.deepcopy(orig)
-    for k, s, c, p in ((k1, s1, c1, p1), (k2, s2, c2, p2)):
-        try:
-            edit(cp if s else orig, k, c, p)
-            ok = True
-        except Exception:
-            ok = False
-        try:
-            edit(o_copy if s else o_orig, k, c, p)
-            ok2 = True
-        except Exception:
-            ok2 = False
-        if ok != ok2:
-            return 0
-        if not all_same(orig, o_orig):
-            return 2
-        if not all_same(cp, o_copy):
-            return 3
-    return 1
+    return explore(1, [(k1, s1, c1, p1), (k2, s2, c2, p2)], (v1, v2, 3, 4))
 
 
 def hist_cc(k1: int, s1: int, c1: int, p1: int, k2: int, s2: int, c2: int, p2: int, v1: int) -> int:
@@ -116,31 +335,7 @@ def hist_cc(k1: int, s1: int, c1: int, p1: int, k2: int, s2: int, c2: int, p2: i
 
 def _hist_cc(k1, s1, c1, p1, k2, s2, c2, p2, v1):
     # copies of copies: orig -> cp -> cp2, an edit between the two copies, then edits on any of the three
-    vals = [v1, 2, 3, 4]
-    trees = [inst(LIB, vals)]
-    oracles = [inst(LIB, vals), inst(LIB, vals), inst(LIB, vals)]
-    trees.append(copy.deepcopy(trees[0]))
-    edit(trees[1], 0, 0, 99)
-    edit(oracles[1], 0, 0, 99)
-    edit(oracles[2], 0, 0, 99)
-    trees.append(copy.deepcopy(trees[1]))
-    for k, s, c, p in ((k1, s1, c1, p1), (k2, s2, c2, p2)):
-        try:
-            edit(trees[s], k, c, p)
-            ok = True
-        except Exception:
-            ok = False
-        try:
-            edit(oracles[s], k, c, p)
-            ok2 = True
-        except Exception:
-            ok2 = False
-        if ok != ok2:
-            return 0
-        for i in range(3):
-            if not all_same(trees[i], oracles[i]):
-                return 2 + i
-    return 1
+    return explore(2, [(k1, s1, c1, p1), (k2, s2, c2, p2)], (v1, 2, 3, 4))
 
 
 def reach_hist(k1: int, s1: int, c1: int, p1: int, k2: int, s2: int, c2: int, p2: int, v1: int, v2: int) -> int:
